@@ -381,22 +381,11 @@ def rule_d(ctx):
             'every RESUME is answered with REJECTED_RESUME' if ok else 'RESUME is answered with %s' % sorted(
                 map(str, codes)))
     # dispatch table rows
-    rl = ctx.repo.func('rsocket.rsocket_base:RSocketBase._receiver_listen')
-    table = None
-    for n in walk_local(rl.node):
-        if isinstance(n, ast.Dict) and len(n.keys) >= 8:
-            table = n
-    if table is None:
-        raise AnalysisError('C16.d: dispatch table of _receiver_listen vanished')
-    rows = {}
-    for k, v in zip(table.keys, table.values):
-        if isinstance(v, ast.Attribute):
-            rows[ast.unparse(k).split('.')[-1]] = v.attr
-    for fcls, fn in (('SetupFrame', 'handle_setup'), ('ResumeFrame', 'handle_resume')):
-        ok = rows.get(fcls) == fn
-        rep.add('C16.d', '_receiver_listen dispatch / %s' % fcls, (rl.file, table.lineno), ok,
-                '%s frames are handled by %s' % (fcls, fn) if ok else
-                '%s frames are dispatched to %s' % (fcls, rows.get(fcls)))
+    from . import dispatch
+    dispatch.rule_rows(ctx, 'C16.d', ['SetupFrame', 'ResumeFrame'])
+    dispatch.rule_lookup(ctx, 'C16.d')
+    dispatch.rule_routing(ctx, 'C16.d', only=['SetupFrame', 'ResumeFrame'])
+    rl = dispatch.receiver(ctx)
     # error replies use the stream id of the frame being handled
     sites = []
     for n in walk_local(rl.node):
